@@ -96,6 +96,33 @@ def accessors(ctx, F, crate, a, table, row, hdr_fields, compound, rule="G6", com
         if (name, meth) in compound:
             continue
         if meth not in tab:
+            from .. import inline as INL_
+            if INL_.is_helper(i):
+                # a method that does not exist on the reference tree: an *addition* to the API.  The accessor table speaks about the
+                # documented accessors; an added one is decided where it is self-evident - it is named after the field it returns
+                # (plain read at that field's layout offset), or it returns the variable part itself (extent: C05) - and otherwise
+                # recorded as not decided (its memory safety is still C01's / C09's census)
+                r_ = RS.accessor_reads(F, i)
+                path_ = locate(F, a, r_[0], r_[1]) if r_ is not None and r_[0] is not None and r_[1] is not None else None
+                rt_, _f = an.of(F, i).ret()
+                tail_ = (a.get("tail") or {}).get("field")
+                rn_ = N(rt_) if rt_ is not None else None
+                is_tail = tail_ is not None and rn_ is not None and rn_[0] == "ref" and rn_[1][0] == "fld" and rn_[1][1] == deref(arg(1)) and \
+                    [f["name"] for f in a["fields"] if f["i"] == rn_[1][2]] == [tail_]
+                if path_ is not None and path_[-1] == meth:
+                    ctx.ok(rule, "%s::%s" % (name, meth), "added accessor %s::%s() returns the field it is named after (offset %d, %d bytes)" % (name, meth, r_[0], r_[1]),
+                           i.get("span", ""), how="plain read of `%s`" % ".".join(path_))
+                    n += 1
+                elif is_tail:
+                    ctx.ok(rule, "%s::%s" % (name, meth), "added accessor %s::%s() returns the variable part `%s` itself (its extent is C05's)" % (name, meth, tail_),
+                           i.get("span", ""), how="&self.%s" % tail_)
+                elif meth in [f["name"] for f in a["fields"]] and path_ is not None:
+                    ctx.fail(rule, "%s::%s" % (name, meth), "added accessor %s::%s() returns the field it is named after" % (name, meth), i.get("span", ""),
+                             "it is named after the field `%s` and returns `%s`" % (meth, ".".join(path_)))
+                else:
+                    ctx.note("added public method %s::%s() is not in the accessor table: not decided (no specified field to compare it with)" % (name, meth))
+                    ctx.count("added public methods not decided", 1)
+                continue
             ctx.fail(rule, "%s::%s" % (name, meth), "public accessor %s::%s() is mapped to a specified field (accessor table)" % (name, meth), i.get("span", ""),
                      "unmapped accessor: add it to the API table in spec.py with the field it must return")
             continue
@@ -111,6 +138,24 @@ def accessors(ctx, F, crate, a, table, row, hdr_fields, compound, rule="G6", com
         if meth not in seen:
             ctx.fail("ANCHOR", "%s::%s" % (name, meth), "documented accessor %s::%s exists" % (name, meth), a.get("span", ""), "missing")
     return n
+
+
+def added_getter(ctx, F, owner_prefix, inst, rule):
+    """a typed getter that does not exist on the reference tree (an API addition): decided when it is, like the documented ones,
+    `get_tag::<T>()` unchanged for some tag type T (first tag with T::ID by the get_tag premises; T's ID and layout are the
+    layout rows'); anything else is recorded as not decided.  Returns True when the method was handled here."""
+    from .. import inline as INL_
+    if not INL_.is_helper(inst):
+        return False
+    rt, _ = an.of(F, inst).ret()
+    n = N(rt) if rt is not None else None
+    if n is not None and n[0] == "call" and str(n[1]).startswith(owner_prefix + "get_tag::<") and n[2] == (arg(1),):
+        ctx.ok(rule, "added:" + inst["name"], "added getter %s() returns %s unchanged" % (inst["name"], str(n[1])[len(owner_prefix):]), inst.get("span", ""),
+               how=G.show(rt)[:120], nontrivial=False)
+    else:
+        ctx.note("added public method %s%s() is not in the getter table: not decided" % (owner_prefix, inst["name"]))
+        ctx.count("added public methods not decided", 1)
+    return True
 
 
 def tag_id(F, ty_path):
